@@ -199,6 +199,9 @@ pub struct MacroDefinition {
     block: Block,
 }
 
+/// How many times a loop may be repeated
+const MAX_LOOP_COUNT: i64 = 0x10000;
+
 /// How deep macro invocations may be nested
 const MAX_MACRO_DEPTH: usize = 64;
 
@@ -783,10 +786,10 @@ impl CodegenContext {
                             let name = self.to_identifier(id.span, name)?;
 
                             let size = extractor.try_get_i64(self, "size")?;
-                            if matches!(size, Some(size) if size < 0) {
+                            if matches!(size, Some(size) if !(0..=0x1000000).contains(&size)) {
                                 return Err(Diagnostic::error()
                                     .with_message(format!(
-                                        "the size of bank '{}' should not be negative",
+                                        "the size of bank '{}' should be between 0 and 16777216 bytes",
                                         name
                                     ))
                                     .with_labels(vec![id.span.to_label()])
@@ -1063,6 +1066,17 @@ impl CodegenContext {
                                         Some(as_) => &as_.path.data,
                                         None => original_path,
                                     };
+                                    // (what is imported is something the file defines, not something that is reached
+                                    // from there by going up: importing the importing scope into itself is a cycle)
+                                    if original_path.contains_super() {
+                                        return Err(Diagnostic::error()
+                                            .with_message(format!(
+                                                "cannot import '{}': it is not defined in the imported file",
+                                                original_path
+                                            ))
+                                            .with_labels(vec![arg.span.to_label()])
+                                            .into());
+                                    }
                                     match self.symbols.try_index(import_nx, original_path) {
                                         Some(original_nx) => {
                                             to_export.push((
@@ -1232,6 +1246,18 @@ impl CodegenContext {
                 ..
             } => {
                 if let Some(loop_count) = self.evaluate_expression_as_i64(expr, true)? {
+                    // (every iteration that emits anything takes up at least a byte of the 64 KB there are: more
+                    // iterations than that are a mistake, and a count like 2^63 would never end)
+                    if loop_count > MAX_LOOP_COUNT {
+                        return Err(Diagnostic::error()
+                            .with_message(format!(
+                                "a loop cannot be repeated more than {} times, but the count is {}",
+                                MAX_LOOP_COUNT, loop_count
+                            ))
+                            .with_labels(vec![expr.span.to_label()])
+                            .into());
+                    }
+
                     // If the body defines symbols, every iteration needs a scope of its own, since the symbols would be
                     // redefined by the next iteration otherwise. That includes the '-' and '+' of the body itself and of
                     // the blocks inside it, which only matter when something refers to them. (When nothing is defined all
